@@ -166,13 +166,13 @@ def check_C01(tier, seed):
     rng = qc.rng
     quick = tier == "quick"
     # Layer B against Layer A: the mechanism model yields exactly the filter of the domain, in order, each once
-    run.mc("MechCheck", "mech-exact", constants=dict(G="G12", NV=1, LeafLimit=24 if quick else 47, MaxLeaves=2,
+    run.mc("MechCheck", "mech-exact", constants=dict(G="G12", NV=1, LeafLimit=24 if quick else 49, MaxLeaves=2,
                                                       MaxNot=1 if quick else 2, NeedNot=False), invariants=("MechEqualsSem",))
     progs = run.export("GenQuery", "G1-bfs", "PROG", constants=dict(
-        G="G12", NV=1, LeafLimit=12 if quick else 47, MaxLeaves=2, MaxNot=1 if quick else 2, NeedNot=False),
+        G="G12", NV=1, LeafLimit=12 if quick else 49, MaxLeaves=2, MaxNot=1 if quick else 2, NeedNot=False),
         invariants=("Export", "WellFormed"))
     progs += run.export("GenQuery", "G1-sim", "PROG", constants=dict(
-        G="G12", NV=1, LeafLimit=47, MaxLeaves=4 if quick else 6, MaxNot=2, NeedNot=False),
+        G="G12", NV=1, LeafLimit=49, MaxLeaves=4 if quick else 6, MaxNot=2, NeedNot=False),
         simulate=1500 if quick else 20000, depth=14 if quick else 22)
     cov = datasets.covering_world(9)
     for p in progs:
@@ -193,7 +193,7 @@ def _programs(run, nv, quick, need_not=False, tag="", leaf_quick=None, leaf_full
               sim_full=15000, maxleaves_bfs=2):
     """Programs for grammar G1 (nv = 1) or G2 (nv >= 2): exhaustive BFS over the
     bounded builder machine plus seeded random walks to larger trees."""
-    full = 47 if nv == 1 else (34 if nv == 2 else 43)
+    full = 49 if nv == 1 else (34 if nv == 2 else 43)
     lq = leaf_quick or (12 if nv == 1 else 10)
     lf = leaf_full or full
     progs = run.export("GenQuery", f"G{nv}{tag}-bfs", "PROG", constants=dict(
@@ -486,7 +486,7 @@ def check_C19(tier, seed):
     rng = qc.rng
     twins = 0
     for nv in (1, 2):
-        progs = _programs(run, nv, quick, sim_quick=600, sim_full=8000, leaf_full=47 if nv == 1 else 34)
+        progs = _programs(run, nv, quick, sim_quick=600, sim_full=8000, leaf_full=49 if nv == 1 else 34)
         if quick:
             progs = rng.sample(progs, min(len(progs), 2000))
         elif len(progs) > 50000:
@@ -555,9 +555,9 @@ def check_C07(tier, seed):
                       constraint="Bound", count=False)
     behs += run.export("Lazy", "walks", "BEH", constants=dict(N=1, MaxLen=12 if quick else 20), invariants=("Export",),
                        constraint="Bound", simulate=300 if quick else 5000, depth=13 if quick else 21, count=False)
-    progs = run.export("GenQuery", "G1", "PROG", constants=dict(G="G12", NV=1, LeafLimit=47, MaxLeaves=1 if quick else 2,
+    progs = run.export("GenQuery", "G1", "PROG", constants=dict(G="G12", NV=1, LeafLimit=49, MaxLeaves=1 if quick else 2,
                                                                  MaxNot=1, NeedNot=False), count=False)
-    progs += run.export("GenQuery", "G1-sim", "PROG", constants=dict(G="G12", NV=1, LeafLimit=47, MaxLeaves=4, MaxNot=2, NeedNot=False),
+    progs += run.export("GenQuery", "G1-sim", "PROG", constants=dict(G="G12", NV=1, LeafLimit=49, MaxLeaves=4, MaxNot=2, NeedNot=False),
                         simulate=300 if quick else 3000, depth=14, count=False)
     cases = []
     for b in behs:
@@ -640,7 +640,7 @@ def check_C04(tier, seed):
     for nv in (1, 2):
         ps = run.export("GenQuery", f"G{nv}", "PROG", constants=dict(G="G12", NV=nv, LeafLimit=16 if nv == 1 else 12, MaxLeaves=2,
                                                                       MaxNot=1, NeedNot=False), count=False)
-        ps += run.export("GenQuery", f"G{nv}-sim", "PROG", constants=dict(G="G12", NV=nv, LeafLimit=47 if nv == 1 else 34, MaxLeaves=4,
+        ps += run.export("GenQuery", f"G{nv}-sim", "PROG", constants=dict(G="G12", NV=nv, LeafLimit=49 if nv == 1 else 34, MaxLeaves=4,
                                                                          MaxNot=2, NeedNot=False),
                          simulate=500 if quick else 4000, depth=14, count=False)
         # every single leaf of the full vocabulary (user code in comparison operands, predicates, ...) with and without not_
@@ -663,6 +663,24 @@ def check_C04(tier, seed):
         n = len(W["objs"])
         dom = [rng.randint(1, n) for _ in range(rng.randint(2, 5))]
         qc.add(W, [mk_query(p, [dom])], [drain_ev(1), drain_ev(1, eqbag=1), drain_ev(1, eqbag=1)], tag="dup")
+
+    # typed variables over mixed-class domains (possibly without any instance of the type) evaluated repeatedly,
+    # alone and by a second query that shares the variable
+    x = {"k": "var", "i": 1}
+    for _ in range(120 if quick else 2500):
+        W = _hier_world(rng, rng.randint(3, 7))
+        n = len(W["objs"])
+        T = rng.choice(["Base", "Mid", "Leaf"])
+        dom = rng.sample(range(1, n + 1), rng.randint(1, n))
+        if rng.random() < 0.4:
+            sub = {"Base": ("Base", "Mid", "Leaf"), "Mid": ("Mid", "Leaf"), "Leaf": ("Leaf",)}[T]
+            dom = [o for o in dom if W["objs"][o - 1]["cls"] not in sub]
+        conds = [{"k": "true"}, {"k": "cmp", "op": "ge", "l": {"k": "attr", "e": x, "a": "n"}, "r": {"k": "lit", "v": datasets.iv(1)}},
+                 {"k": "truth", "e": {"k": "attr", "e": x, "a": "m"}}]
+        qs = [{"vars": [{"cls": T, "dom": dom}], "flats": [], "bound": [], "desc": "entity", "quant": "an", "sel": [x],
+               "cond": rng.choice(conds), "varkeys": [1]} for _ in range(2)]
+        evs = [drain_ev(1), drain_ev(1), drain_ev(2), {"op": "partial", "qi": 1, "k": 1, "how": "close"}, drain_ev(2), drain_ev(1)]
+        qc.add(W, qs, evs, share_vars=True, tag="typed")
 
     def nontrivial(t):
         seen_abort = False
@@ -986,6 +1004,10 @@ def check_C13(tier, seed):
                            "f": {"n": datasets.iv(rng.choice([0, 1, 2])), "m": datasets.iv(rng.choice([0, 1, 2]))}}
                           for _ in range(n)]}
             dom = rng.sample(range(1, n + 1), rng.randint(2, n))
+            if rng.random() < 0.25:       # a domain without any instance of the variable's type (instances exist elsewhere)
+                T = p["vars"][0]["cls"]
+                sub = {"Base": ("Base", "Mid", "Leaf"), "Mid": ("Mid", "Leaf"), "Leaf": ("Leaf",)}[T]
+                dom = [o for o in dom if W["objs"][o - 1]["cls"] not in sub]
             q1 = mk_term_query(p, [dom])
             variant = rng.random()
             if variant < 0.35:
@@ -1000,7 +1022,7 @@ def check_C13(tier, seed):
                 qc.add(W, qs, [drain_ev(1), drain_ev(2), drain_ev(3)], share_vars=True, share_froms=True)
             else:
                 q2 = mk_term_query(p, [dom], build="explicit")
-                qc.add(W, [q1, q2], [drain_ev(1), drain_ev(2, eqto=1)])
+                qc.add(W, [q1, q2], [drain_ev(1), drain_ev(2, eqto=1), drain_ev(1, eqto=1), drain_ev(2, eqto=1)])
 
     def nontrivial(t):
         ev = t["evs"][-1]
@@ -1152,7 +1174,7 @@ def check_C09(tier, seed):
         qc.add(W, qs, evs)
 
     for nv in (1, 2):
-        progs = _programs(run, nv, quick, sim_quick=1500, sim_full=12000, leaf_quick=16 if nv == 1 else 12, leaf_full=47 if nv == 1 else 34)
+        progs = _programs(run, nv, quick, sim_quick=1500, sim_full=12000, leaf_quick=16 if nv == 1 else 12, leaf_full=49 if nv == 1 else 34)
         progs = _with_pred(progs)
         cap = 700 if quick else 15000
         if len(progs) > cap:
@@ -1226,7 +1248,7 @@ def check_C18(tier, seed):
     run.mc("RewriteCheck", "sound", constants=dict(G="G12", NV=2, LeafLimit=10 if quick else 12, MaxLeaves=2 if quick else 3, MaxNot=1,
                                                     NeedNot=False), invariants=("RewritesSound",))
     for nv in (1, 2, 3):
-        full = 47 if nv == 1 else (34 if nv == 2 else 43)
+        full = 49 if nv == 1 else (34 if nv == 2 else 43)
         progs = run.export("GenQuery", f"G{nv}-rw-bfs", "PROGRW", constants=dict(
             G="G12", NV=nv, LeafLimit=10 if quick else 20, MaxLeaves=2, MaxNot=1, NeedNot=False), invariants=("ExportRW",), count=False)
         progs += run.export("GenQuery", f"G{nv}-rw-sim", "PROGRW", constants=dict(
